@@ -291,6 +291,9 @@ pub fn run_prover(prog: &str, sim_lim: Step) -> MachineResult {
         }
     }
 
+    #[cfg(bb_verif)]
+    verif::record_rules(prover.verif_rules());
+
     MachineResult {
         result: result.unwrap_or(xlimit),
         steps,
@@ -570,5 +573,26 @@ pub mod verif {
 
     pub fn take_apps() -> Vec<App> {
         APPS.with(|apps| apps.borrow_mut().drain(..).collect())
+    }
+
+    // the rules (with their minimal signatures) the prover holds when
+    // `run_prover` returns
+
+    pub type StoredRule = (
+        crate::instrs::Slot,
+        (crate::tape::Signature, (bool, bool)),
+        Rule,
+    );
+
+    thread_local! {
+        static RULES: RefCell<Vec<StoredRule>> = const { RefCell::new(vec![]) };
+    }
+
+    pub fn record_rules(rules: Vec<StoredRule>) {
+        RULES.with(|cell| *cell.borrow_mut() = rules);
+    }
+
+    pub fn take_rules() -> Vec<StoredRule> {
+        RULES.with(|cell| cell.borrow_mut().drain(..).collect())
     }
 }
